@@ -687,8 +687,11 @@ class PythonTypesBackend(CodeBackend):
         indirect_annotations = dt.recursive_custom_annotations if is_composite_type(dt) else set()
         all_annotations = (data_type.recursive_custom_annotations
                            if is_composite_type(data_type) else set())
-        remaining_annotations = [annotation for _, annotation in
-                                 all_annotations.difference(indirect_annotations)]
+        # all_annotations is a set of tuples that hash by object identity: give the
+        # annotations a stable order so that the generated code does not depend on addresses
+        remaining_annotations = sorted(
+            (annotation for _, annotation in all_annotations.difference(indirect_annotations)),
+            key=lambda annotation: (annotation.namespace.name, annotation.name))
         for annotation in itertools.chain(remaining_annotations,
                                           extra_annotations):
             yield (annotation.annotation_type,
@@ -717,7 +720,8 @@ class PythonTypesBackend(CodeBackend):
                 field_name = fmt_var(field.name, check_reserved=True)
                 recursive_processors = list(self._generate_custom_annotation_processors(
                     ns, field.data_type, field.custom_annotations))
-                recursive_processors = sorted(recursive_processors, key=lambda x: x[0].name)
+                recursive_processors = sorted(recursive_processors,
+                                              key=lambda x: (x[0].name, x[0].namespace.name))
                 for annotation_type, processor in recursive_processors:
                     annotation_class = class_name_for_annotation_type(annotation_type, ns)
                     self.emit('if annotation_type is {}:'.format(annotation_class))
@@ -1000,7 +1004,8 @@ class PythonTypesBackend(CodeBackend):
                 if len(recursive_processors) == 0:
                     continue
 
-                recursive_processors = sorted(recursive_processors, key=lambda x: x[0].name)
+                recursive_processors = sorted(recursive_processors,
+                                              key=lambda x: (x[0].name, x[0].namespace.name))
 
                 field_name = fmt_func(field.name)
                 self.emit('if self.is_{}():'.format(field_name))
